@@ -130,8 +130,8 @@ pub const VC_KP_9: u16 = 0x0049;
 pub const VC_KP_0: u16 = 0x0052;
 // End Numeric Zone
 
-pub(crate) fn keycode_to_char(key: u16) -> char {
-    match key {
+pub(crate) fn keycode_to_char(key: u16) -> Option<char> {
+    let character = match key {
         // Alphanumeric keys
         VC_GRAVE => '`',
         VC_TILDE => '~',
@@ -252,6 +252,9 @@ pub(crate) fn keycode_to_char(key: u16) -> char {
         VC_KP_ADD => '+',
         VC_KP_DECIMAL => '.',
 
-        _ => panic!("Got unknown key!"),
-    }
+        // Not a character key (e.g. the Enter key of the keypad).
+        _ => return None,
+    };
+
+    Some(character)
 }
